@@ -117,6 +117,8 @@ def do_solve(st, op, radial_solver):
             args[mangle['which']] = args[mangle['which']].astype(np.float32 if mangle['which'] < 4 else np.complex64)
         elif kind == 'noncontiguous':
             args[mangle['which']] = np.repeat(args[mangle['which']], 2)[::2]
+        elif kind == 'aliased_density_gravity':
+            args[2] = args[1]                  # the caller hands the same array object in twice
         elif kind == 'layer_type':
             layer_types = tuple(('plasma' if i == mangle['which'] % len(layer_types) else t) for i, t in enumerate(layer_types))
         elif kind == 'tuple_len':
@@ -154,12 +156,16 @@ def do_solve(st, op, radial_solver):
     if 'solve_for' in o and o['solve_for'] is not None and not o.pop('solve_for_as_list', False):
         o['solve_for'] = tuple(o['solve_for'])
     o.pop('solve_for_as_list', None)
+    bulk_density = p['bulk_density']
+    bd = o.pop('_bulk_density', None)
+    if bd is not None:
+        bulk_density = {'zero': 0.0, 'nan': float('nan'), 'negative': -5500.0, 'tiny': 1.0e-300, 'inf': float('inf')}[bd]
     reply = {'kind': None}
     sol = None
     before = {name: p[name].copy() for name in ARRAYS}    # "original values" = what the caller held when it made the call
     try:
         sol = radial_solver(args[0], args[1], args[2], args[3], args[4], p['frequency'] if 'frequency' not in o else o.pop('frequency'),
-                            p['bulk_density'], layer_types, is_static, is_incomp, upper, **o)
+                            bulk_density, layer_types, is_static, is_incomp, upper, **o)
         reply['kind'] = 'returned'
     except BaseException as e:   # noqa - every Python-level exception is a legal outcome
         if isinstance(e, (KeyboardInterrupt, SystemExit)):
